@@ -19,7 +19,7 @@ CLAIMED = {
  "C13": dict(text=GEN + "Partial: civil year/half-year/season/month nesting and month -> days for every year and month (incl. October 1582); lunar year -> months for any leap table (thorough tier); lunar month -> its days, lunar day -> 13 slots, sexagenary day -> 12 double-hours, sexagenary month -> days from Jie day to the day before the next (engine B: the listing loops unrolled with the bound proved, the returned vector compared element by element).; sexagenary year -> 12 months.",
              note="Assumes: SolarDay::next from the 1st of a month replaced by the reference calendar (lemma 13.L; discharged by C01); ENV-A/ENV-L for the lunar part; for the engine-B lists: month pillar of a day turns at Jie days (C08 08.d), stepping a view moves its day/instant (C11 11.j).",
              technique=BMC + " + " + ENGB),
- "C14": dict(text=GEN + "Partial: civil weeks — acceptance, week count, first day, start weekday, coverage, seven consecutive days, week-of-date — for every month/date, every start weekday, one job per weekday of the 1st of the month. stepping a civil or lunar week by n (|n| <= 6 / 8) and the first day of a lunar week by engine B; the index of a civil week in its year counted from the week containing January 1 (engine B, search loop unrolled with the bound proved); week -> seven days and month -> weeks for civil and lunar (engine B). Not covered: week of a lunar date.",
+ "C14": dict(text=GEN + "Partial: civil weeks — acceptance, week count, first day, start weekday, coverage, seven consecutive days, week-of-date — for every month/date, every start weekday, one job per weekday of the 1st of the month. stepping a civil or lunar week by n (|n| <= 6 / 8) and the first day of a lunar week by engine B; the index of a civil week in its year counted from the week containing January 1 (engine B, search loop unrolled with the bound proved); week -> seven days, month -> weeks, week count and constructor acceptance for civil and lunar (engine B). Not covered: steps beyond the stated bounds.",
              note="Assumes: day counts relative to the month's 1st (sums of month lengths; discharged by C01) with one concrete representative day count per weekday; small-step SolarDay::next closed form (lemma 14.L); index_of as 32-bit arithmetic (engine B).",
              technique=BMC + " + " + ENGB),
  "C19": dict(text=GEN + "Stem / branch / pillar / star attribute tables are decided over their whole finite domains (symbolic index, Kani) against first-principles encodings written from the classical rules; the eight-character derived signs over all pillar combinations by engine B. Not covered: name-string lookups, Peng Zu texts, 28-mansion land/luck and foetus tables.",
